@@ -12,7 +12,7 @@ import (
 func init() {
 	register(&Prop{
 		ID:          "C20",
-		Decided:     "(1) no map update, delete, element store, in-place sort, copy-into or reflect setter is applied to a value that may alias the map passed to Emit/EmitSync/Stream.Emit/ProcessSync or a container nested in it, anywhere in the module (interprocedural, field-based taint over SSA, through the input channel, types.Row.Data, closures and interface calls); (2) the package-level variables written by module code outside init are a subset of a frozen, reasoned table (process-wide registry and caches), and the mutated fields of the process-wide singletons (ExprBridge, FunctionRegistry) are a subset of a reviewed table, so no new cross-instance or history channel exists. Also: Validate/Execute of every registered function type (298 methods) do not store into the receiver, the process-wide registry singleton; no delivered row or returned result is the caller's own map.",
+		Decided:     "(1) no map update, delete, element store, in-place sort, copy-into or reflect setter is applied to a value that may alias the map passed to Emit/EmitSync/Stream.Emit/ProcessSync or a container nested in it, anywhere in the module (interprocedural, field-based taint over SSA, through the input channel, types.Row.Data, closures and interface calls); (2) the package-level variables written by module code outside init are a subset of a frozen, reasoned table (process-wide registry and caches), and the mutated fields of the process-wide singletons (ExprBridge, FunctionRegistry) are a subset of a reviewed table, so no new cross-instance or history channel exists. Also: Validate/Execute of every registered function type (298 methods) do not store into the receiver, the process-wide registry singleton; no delivered row or returned result is the caller's own map. Also: no method that writes its receiver (Init, Add, Reset, ... as decided from the implementations) is invoked on a value taken straight out of the function registry; instances get their parameters on a New()/Clone() copy (ownmap/registry-objects-not-mutated).",
 		NotDecided:  "equality of paired vs solo runs (the contents of the shared caches are value-level; the rule bounds which shared state exists, not what it holds); mutation by third-party code (expr-lang) or by user-registered functions; rows handed to sinks being altered afterwards is decided only for the caller-map taint, not for result maps.",
 		Assumptions: []string{"field-based heap abstraction: all types.Row.Data, all Stream.dataChan are merged; the global-window branch of processWindowBatch is excluded by two checked side obligations", "library code called with the caller's row (reflect reads, expr-lang VM) does not write it"},
 		Run:         runC20,
@@ -26,6 +26,7 @@ func runC20(a *A) {
 	a.Rule("flow/pooled-map-cleared", 1, func() { a.rulePooledMapsModule() })
 	a.Rule("ownmap/shared-state", 5, func() { a.ruleSharedState() })
 	a.Rule("ownmap/registered-functions-stateless", 100, func() { a.ruleRegisteredFunctionsStateless() })
+	a.Rule("ownmap/registry-objects-not-mutated", 5, func() { a.ruleRegistryObjectsNotMutated() })
 }
 
 func (a *A) rulePooledMapsModule() {
@@ -140,5 +141,177 @@ func (a *A) namedTypesOf(p *ssa.Package) []*types.Named {
 			}
 		}
 	}
+	return out
+}
+
+// ruleRegistryObjectsNotMutated: the objects in the function registry are process-wide prototypes; an
+// instance gets its own copy through New()/Clone(). No method that writes its receiver (Init, Add,
+// Reset, Apply, ... — decided from the implementations) is invoked on a value that comes straight out
+// of the registry: what Init(args) of one query leaves there (percentile's p, nth_value's n) is inherited
+// by every instance created later, in every Streamsql instance of the process.
+func (a *A) ruleRegistryObjectsNotMutated() int {
+	fpkg := a.Pkg("functions")
+	fnIface := a.Iface("functions", "Function")
+	// methods with an implementation that stores into its receiver
+	mutating := map[string]bool{}
+	for _, T := range a.namedTypesOf(fpkg) {
+		pt := types.NewPointer(T)
+		if !typesImplements(pt, fnIface) {
+			continue
+		}
+		ms := a.Prog.MethodSets.MethodSet(pt)
+		for i := 0; i < ms.Len(); i++ {
+			fn := a.Prog.MethodValue(ms.At(i))
+			if fn == nil || fn.Blocks == nil || len(fn.Params) == 0 || mutating[fn.Name()] {
+				continue
+			}
+			recv := fn.Params[0]
+			allInstrs(fn, func(in ssa.Instruction) {
+				st, ok := in.(*ssa.Store)
+				if !ok {
+					return
+				}
+				v := st.Addr
+				for i := 0; i < 6; i++ {
+					switch x := v.(type) {
+					case *ssa.FieldAddr:
+						v = x.X
+						continue
+					case *ssa.IndexAddr:
+						v = x.X
+						continue
+					}
+					break
+				}
+				if v == ssa.Value(recv) {
+					mutating[fn.Name()] = true
+				}
+			})
+		}
+	}
+	// Validate and Execute are *meant* to run on the registered object: that they do not write it is
+	// decided per implementation by ownmap/registered-functions-stateless
+	delete(mutating, "Validate")
+	delete(mutating, "Execute")
+	// registry accessors: functions of package functions returning a Function looked up in a map
+	accessor := map[*ssa.Function]bool{}
+	for changed := true; changed; {
+		changed = false
+		for _, fn := range a.ModFuncs {
+			if fn.Pkg != fpkg || fn.Blocks == nil || fn.Signature.Results().Len() == 0 || accessor[fn] {
+				continue
+			}
+			if !types.Identical(fn.Signature.Results().At(0).Type().Underlying(), fnIface) {
+				continue
+			}
+			for _, b := range fn.Blocks {
+				ret, ok := b.Instrs[len(b.Instrs)-1].(*ssa.Return)
+				if !ok {
+					continue
+				}
+				for x := range sliceThroughLocals(ret.Results[0], fn, 8) {
+					if lk, ok := x.(*ssa.Lookup); ok {
+						if _, isMap := lk.X.Type().Underlying().(*types.Map); isMap {
+							accessor[fn] = true
+						}
+					}
+					if c, ok := x.(*ssa.Call); ok && c.Call.StaticCallee() != nil && accessor[c.Call.StaticCallee()] {
+						accessor[fn] = true
+					}
+				}
+			}
+			if accessor[fn] {
+				changed = true
+			}
+		}
+	}
+	if len(accessor) == 0 {
+		a.anchorFail("no registry accessor found in package functions")
+	}
+	n := 0
+	for _, fn := range a.ModFuncs {
+		if fn.Blocks == nil {
+			continue
+		}
+		allInstrs(fn, func(in ssa.Instruction) {
+			c, ok := in.(*ssa.Call)
+			if !ok || !c.Call.IsInvoke() || !mutating[c.Call.Method.Name()] {
+				return
+			}
+			if mp := c.Call.Method.Pkg(); mp == nil || mp != fpkg.Pkg {
+				return
+			}
+			fromRegistry := ""
+			seen := map[ssa.Value]bool{}
+			var walk func(v ssa.Value, d int)
+			walk = func(v ssa.Value, d int) {
+				if v == nil || seen[v] || d > 10 {
+					return
+				}
+				seen[v] = true
+				switch x := v.(type) {
+				case *ssa.Phi:
+					for _, e := range x.Edges {
+						walk(e, d+1)
+					}
+				case *ssa.TypeAssert:
+					walk(x.X, d+1)
+				case *ssa.ChangeInterface:
+					walk(x.X, d+1)
+				case *ssa.Extract:
+					walk(x.Tuple, d+1)
+				case *ssa.UnOp:
+					if al, ok := x.X.(*ssa.Alloc); ok && x.Op == token.MUL {
+						allInstrs(fn, func(in ssa.Instruction) {
+							if st, ok := in.(*ssa.Store); ok && st.Addr == ssa.Value(al) {
+								walk(st.Val, d+1)
+							}
+						})
+					}
+				case *ssa.Call:
+					if sc := x.Call.StaticCallee(); sc != nil && accessor[sc] {
+						fromRegistry = fname(sc) + " at " + a.pos(x.Pos())
+					}
+				}
+			}
+			walk(c.Call.Value, 0)
+			n++
+			a.Check(fromRegistry == "", fmt.Sprintf("%s->%s#not-on-registry-object", fname(fn), c.Call.Method.Name()), c.Pos(),
+				"the receiver of the state-writing method is not a value taken straight out of the function registry",
+				fmt.Sprintf("%s, which writes its receiver, is invoked on the object returned by %s: the registered prototype is shared by every query of the process, so what this call leaves in it is inherited by instances created later", c.Call.Method.Name(), fromRegistry))
+		})
+	}
+	return n
+}
+
+// sliceThroughLocals: backwardSlice that also follows a load of a local (defer-spilled results, reassigned
+// locals) to the values stored into it.
+func sliceThroughLocals(v ssa.Value, fn *ssa.Function, depth int) map[ssa.Value]bool {
+	out := map[ssa.Value]bool{}
+	var walk func(x ssa.Value, d int)
+	walk = func(x ssa.Value, d int) {
+		if x == nil || out[x] || d > depth {
+			return
+		}
+		out[x] = true
+		if u, ok := x.(*ssa.UnOp); ok && u.Op == token.MUL {
+			if al, ok := u.X.(*ssa.Alloc); ok {
+				allInstrs(fn, func(in ssa.Instruction) {
+					if st, ok := in.(*ssa.Store); ok && st.Addr == ssa.Value(al) {
+						walk(st.Val, d+1)
+					}
+				})
+				return
+			}
+		}
+		if in, ok := x.(ssa.Instruction); ok {
+			for _, op := range in.Operands(nil) {
+				if *op != nil {
+					walk(*op, d+1)
+				}
+			}
+		}
+	}
+	walk(v, 0)
 	return out
 }
